@@ -41,6 +41,8 @@ class Ctx:
         self.notes = []
         self.trace = []          # textual trace of decisions (for evidence / debugging)
         self.flip_pos = len(self.prefix) - 1 if self.prefix else -1
+        self.qguards = []
+        self.quant_timeout_ms = 700
 
     # -- naming -----------------------------------------------------------------------------
     def name(self, base):
@@ -51,11 +53,60 @@ class Ctx:
 
     # -- path condition ---------------------------------------------------------------------
     def _feasible(self, extra):
+        import time as _t
+        t0 = _t.time()
+        try:
+            return self._feasible0(extra)
+        finally:
+            self.t_feas = getattr(self, "t_feas", 0) + _t.time() - t0
+            self.n_feas = getattr(self, "n_feas", 0) + 1
+
+    def _feasible0(self, extra):
+        """is pc /\\ extra satisfiable?  unknown counts as feasible (fail-safe: more paths, never fewer)"""
+        qf = [h for h in self.pc if not _has_quantifier(h)]
+        s = z3.Solver()
+        s.set("timeout", self.decide_timeout_ms)
+        s.add(*qf)
+        s.add(extra)
+        r = s.check()
+        if r == z3.unsat:
+            return False
+        if len(qf) == len(self.pc) and not _has_quantifier(extra):
+            return True
+        s = z3.Solver()
+        s.set("timeout", self.quant_timeout_ms)
+        s.add(*self.pc)
+        s.add(extra)
+        return s.check() != z3.unsat
+
+    def _valid(self, cond):
+        import time as _t
+        t0 = _t.time()
+        try:
+            return self._valid0(cond)
+        finally:
+            self.t_valid = getattr(self, "t_valid", 0) + _t.time() - t0
+
+    def _valid0(self, cond):
         s = z3.Solver()
         s.set("timeout", self.decide_timeout_ms)
         s.add(*self.pc)
-        s.add(extra)
-        return s.check() != z3.unsat          # unknown counts as feasible (fail-safe: more paths)
+        s.add(*self.qguards)
+        s.add(z3.Not(cond))
+        return s.check() == z3.unsat
+
+    def quantified(self, guard):
+        """context manager: evaluate python code at a *bound* variable; decisions must be determined by pc /\\ guard"""
+        c = self
+
+        class _Q:
+            def __enter__(s2):
+                c.qguards.append(guard)
+
+            def __exit__(s2, *a):
+                c.qguards.pop()
+                return False
+        return _Q()
 
     def decide(self, cond, label=""):
         """cond: z3 Bool (or python bool). Returns a python bool and records the branch."""
@@ -69,6 +120,12 @@ class Ctx:
         self.steps += 1
         if self.steps > self.max_steps:
             raise Unsupported("step budget exceeded")
+        if self.qguards:
+            if self._valid(cond):
+                return True
+            if self._valid(z3.Not(cond)):
+                return False
+            raise Unsupported("branching on a bound variable inside a quantified body (%s)" % label)
         if self.pos < len(self.prefix):
             d = self.prefix[self.pos]
             if self.pos == self.flip_pos and d is False:
@@ -107,6 +164,20 @@ class Ctx:
             goal = z3.BoolVal(goal)
         self.obls.append(Obl(name, list(self.pc), goal, prop, line, kind, info))
 
+    def lemma(self, name, goal, prop=None, kind="lemma", info=None):
+        """prove, then use: the goal becomes a hypothesis of everything that follows (a cut); its own obligation is checked separately"""
+        self.prove(name, goal, prop=prop, kind=kind, info=info)
+        self.assume(goal)
+
+    def prove_from(self, name, facts, goal, prop=None, kind="post", info=None):
+        """two-stage proof that keeps the solver query small: (1) each fact follows from the path condition (usually an instance of a
+        quantified hypothesis), (2) the goal follows from the facts ALONE.  Modus ponens gives pc => goal."""
+        for i, fct in enumerate(facts):
+            self.prove("%s:fact%d" % (name, i), fct, prop=prop, kind=kind, info=info)
+        if isinstance(goal, Sym):
+            goal = goal.t
+        self.obls.append(Obl(name, list(facts), goal, prop, None, kind, info))
+
     def cover(self, name, cond=True, info=None):
         """reachability / non-vacuity: hyps /\\ cond must be satisfiable"""
         if isinstance(cond, Sym):
@@ -117,6 +188,20 @@ class Ctx:
 
     def note(self, s):
         self.notes.append(s)
+
+
+def _has_quantifier(t):
+    seen = set()
+    stack = [t]
+    while stack:
+        e = stack.pop()
+        if e.get_id() in seen:
+            continue
+        seen.add(e.get_id())
+        if z3.is_quantifier(e):
+            return True
+        stack.extend(e.children())
+    return False
 
 
 CTX = None
@@ -386,6 +471,8 @@ def explore(run, max_paths=2000, **ctxkw):
             CTX = None
         allob += c.obls
         notes += c.notes
+        if __import__("os").environ.get("PYVC_TRACE"):
+            print("  path: decisions=%d feas=%.2fs/%d valid=%.2fs obls=%d %s" % (c.pos, getattr(c, "t_feas", 0), getattr(c, "n_feas", 0), getattr(c, "t_valid", 0), len(c.obls), [l for l, d in c.trace][-6:]))
         if c.pos < len(c.prefix):
             raise Unsupported("non-deterministic replay of a decision prefix")
         p = c.prefix
